@@ -14,15 +14,17 @@ LEVEL = "exploration"
 N_CASES = {"quick": 48, "thorough": 1200}
 MAX_SHARDS = 16
 MIN_NONTRIVIAL = 10
-RULE = ("case = 2-4 bundles derived from one base model so that type, field, scalar, directive and subscription names "
+RULE = ("case = 2-5 bundles derived from one base model so that type, field, scalar, directive and subscription names "
         "overlap while behaviour differs (fields added / removed / retyped, different resolver sets, type resolvers, a custom "
-        "scalar and a tagging directive @mark whose implementations embed the bundle label, subscription sources). Each "
+        "scalar and a tagging directive @mark whose implementations embed the bundle label, subscription sources; a "
+        "SCHEMA directive @audit and @nonIntrospectable applied by some bundles only; type-level directives partly arriving "
+        "through `extend` definitions; in 35%% of the cases one bundle is cooked from byte-identical SDL under another name). Each "
         "bundle is first built ALONE in a fresh subprocess and answers a probe battery (generated queries and mutations, a "
         "subscription stream, the full introspection query). Then all bundles are registered and cooked in ONE process under "
         "distinct schema names in every registration order (all permutations for <=3, sampled for 4) with independently "
         "varied cooking orders, and answer the same battery. Oracle: answers identical to the alone run; no closure "
-        "registered for another schema name is ever invoked (each closure checks the label of the requesting engine); the "
-        "registry entry of an already cooked name is unchanged (fingerprint) by registering and cooking another name. "
+        "registered for another schema name is ever invoked (each closure checks the label of the requesting engine); "
+        "changes of an already cooked name's registry entry are counted, not judged (internal state). "
         "non-trivial = bundle set whose alone-answers differ pairwise; distinct by the bundle set's SDLs")
 ASSUMPTIONS = ["fresh schema names per ordering (re-cooking a used name is outside the statement)"]
 ANCHORS = [
